@@ -369,6 +369,7 @@ func ruleFixNotStarted(r *Run, rule string) {
 		if !ok {
 			continue
 		}
+		paths = OwnOnly(paths)
 		bad := ""
 		n := 0
 		var bpos token.Pos = fn.Decl.Pos()
